@@ -1,6 +1,7 @@
 import BU.Gen.Codec
 import BU.Model.Ripemd
 import BU.Proofs.GenRmd
+import BU.Proofs.GenSchnorr
 /-!
 # C20, continuation — the word-level leaves of `bitcoinutils/ripemd160.py` as *generated* code (tier T)
 
@@ -25,5 +26,36 @@ theorem gen_fi (x y z : Int) (i : Nat) (hi : i ≤ 4) :
 /-- anything else than 0..4 trips the `assert False` -/
 theorem gen_fi_rejects (x y z : Int) (i : Int) (hi : i < 0 ∨ 4 < i) : Gen.rmd_fi x y z i = .error .assertion :=
   GenRmd.gen_fi_rejects x y z i hi
+
+/-! ### the curve arithmetic of `bitcoinutils/schnorr.py` as generated code
+
+`point_add`, `point_mul`, `lift_x` and `has_even_y` are re-translated from the working tree on every run.  On points with
+natural-number coordinates they never raise and compute exactly `Secp.add`, `Secp.mul`, `Secp.liftX` — the executable
+definitions the hand model of `schnorr_sign` / `schnorr_verify` is written over and about which the secp256k1 group law is proved. -/
+
+open GenSchnorr in
+theorem gen_point_add (P1 P2 : Secp.Point) :
+    Gen.schnorr_point_add (castP P1) (castP P2) = .ok (castP (Secp.add P1 P2)) :=
+  GenSchnorr.gen_point_add P1 P2
+
+open GenSchnorr in
+/-- for every scalar (the loop reads bits 0..255 of `k`, as `Secp.mul` does) -/
+theorem gen_point_mul (P : Secp.Point) (k : Nat) :
+    Gen.schnorr_point_mul (castP P) (k : Int) = .ok (castP (Secp.mul P k)) :=
+  GenSchnorr.gen_point_mul P k
+
+open GenSchnorr in
+theorem gen_lift_x (x : Nat) : Gen.schnorr_lift_x (x : Int) = .ok (castP (Secp.liftX x)) :=
+  GenSchnorr.gen_lift_x x
+
+open GenSchnorr in
+/-- `has_even_y` asserts on the point at infinity and tests the parity of y otherwise -/
+theorem gen_has_even_y (P : Secp.Point) :
+    Gen.schnorr_has_even_y (castP P) = (match P with | none => .error .assertion | some (_, y) => .ok (y % 2 == 0)) :=
+  GenSchnorr.gen_has_even_y P
+
+-- sanity on a concrete value (kernel evaluation): 2·G through the generated code
+example : (Gen.schnorr_point_add (GenSchnorr.castP Secp.G) (GenSchnorr.castP Secp.G)).toOption
+    = some (GenSchnorr.castP (Secp.add Secp.G Secp.G)) := by decide +kernel
 
 end C20Gen
